@@ -1,0 +1,206 @@
+//go:build verif
+
+// Contracts for package parser, checked by /verif/engine (govc). Compiled
+// only with the build tag "verif".
+package parser
+
+import (
+	"errors"
+
+	"github.com/theory/sqljson/path/ast"
+)
+
+var _ ast.Node
+
+// ghost vocabulary (interpreted by govc; bodies are never executed)
+
+func old[T any](x T) T       { return x }
+func implies(a, b bool) bool { return !a || b }
+func iff(a, b bool) bool     { return a == b }
+func ite[T any](c bool, a, b T) T {
+	if c {
+		return a
+	}
+	return b
+}
+func is[T any](v any) bool                       { _, ok := v.(T); return ok }
+func as[T any](v any) T                          { return v.(T) }
+func errIs(err, target error) bool               { return errors.Is(err, target) }
+func fresh(p any) bool                           { return true }
+func ncalls(f any) int                           { return 0 }
+func callarg[T any](f any, name string) T        { var z T; return z }
+func callret[T any](f any, i int) T              { var z T; return z }
+func forall(f any) bool                          { return true }
+func exists(f any) bool                          { return true }
+func pendingErr() error                          { return nil }
+func pendingFailed() bool                        { return false }
+func ctxDone() bool                              { return false }
+func fitsInt64(x int64) bool                     { return true }
+func fitsInt32(x int64) bool                     { return true }
+func deferActive(field string) bool              { return false }
+func sameFloat(a, b float64) bool                { return a == b }
+func firstret[T any](f any, i int) T             { var z T; return z }
+func dynret[T any](f any, i int, args ...any) T  { var z T; return z }
+func deferObj[T any](field string) T             { var z T; return z }
+func deferVal[T any](field string) T             { var z T; return z }
+func isNaN(f float64) bool                       { return f != f }
+func isInf(f float64) bool                       { return false }
+func toFloat(i int64) float64                    { return float64(i) }
+func truncF(f float64) float64                   { return f }
+func roundHalfAway(f float64) float64            { return f }
+func f2iInRange64(f float64) bool                { return true }
+func f2iTrunc(f float64) int64                   { return int64(f) }
+func loopEntry[T any](x T) T                     { return x }
+func exactCmpIF(i int64, f float64) int          { return 0 }
+func errIsCtx(err error) bool                    { return false }
+func sameSlice[T any](a, b []T) bool             { return len(a) == len(b) }
+func uninterp[T any](name string, args ...any) T { var z T; return z }
+
+//@ sweep safety C04 exclude=pathParserImpl,pathNewParser,pathParse,pathErrorMessage,pathlex1,pathTokname,pathStatname,pathSymType
+
+// Parse: result shape (C04). The goyacc driver (pathParse and friends) is
+// generated code and is trusted: it calls Lex/Error/setResult/setPred of the
+// lexer it is given and nothing else of this package.
+
+//@ func Parse
+//@ props C04 C03 C19
+//@ ensures [C04] error-iff-lexer-errors: r1 != nil ==> r0 == nil && errIs(r1, ErrParse)
+//@ ensures [C04] ok-result: r1 == nil ==> true
+
+// ---------------------------------------------------------------------------
+// lexer: representation invariant, assumed on entry of every function that
+// takes a *lexer and re-established by every contracted method
+
+//@ typeinv lexer [C04] buffer: self.srcPos >= 0 && self.srcPos <= self.srcEnd && self.srcEnd == len(self.srcBuf) && self.srcEnd <= 4611686018427387903 && self.lastCharLen >= 0 && self.lastCharLen <= self.srcPos && self.lastCharLen <= 4
+//@ typeinv lexer [C04] token: self.tokPos >= -1 && self.tokPos <= self.srcEnd && self.tokEnd <= self.srcEnd
+
+//@ func (*lexer).next
+//@ props C03 C04
+//@ modifies l.srcPos, l.lastCharLen, l.column, l.line, l.lastLineLen, l.errors, l.tokEnd
+//@ ensures [C04] advance: r0 >= 0 ==> l.lastCharLen >= 1 && l.srcPos == old(l.srcPos) + l.lastCharLen && len(l.errors) == old(len(l.errors))
+//@ ensures [C04] stop-is-minus-one: r0 < 0 ==> r0 == -1
+//@ ensures [C04] step: l.srcPos == old(l.srcPos) + l.lastCharLen
+//@ ensures [C04] monotone: l.srcPos >= old(l.srcPos) && l.srcPos <= old(l.srcPos) + 4
+//@ ensures [C04] eof: old(l.srcPos) == l.srcEnd ==> r0 == -1 && l.srcPos == old(l.srcPos) && l.lastCharLen == 0 && len(l.errors) == old(len(l.errors))
+//@ ensures [C04] nul-rejected: r0 != 0
+//@ ensures [C04] stop-before-end-is-error: r0 == -1 && old(l.srcPos) < l.srcEnd ==> len(l.errors) == old(len(l.errors)) + 1
+//@ ensures [C03 C04] ascii: old(l.srcPos) < l.srcEnd && l.srcBuf[old(l.srcPos)] < 128 && l.srcBuf[old(l.srcPos)] != 0 ==> r0 == rune(l.srcBuf[old(l.srcPos)]) && l.lastCharLen == 1
+//@ ensures [C04] errors-only-grow: len(l.errors) >= old(len(l.errors))
+//@ ensures [C04] buffer-unchanged: sameSlice(l.srcBuf, old(l.srcBuf)) && l.srcEnd == old(l.srcEnd) && l.tokPos == old(l.tokPos)
+
+//@ func (*lexer).Error
+//@ props C04
+//@ modifies l.errors, l.tokEnd
+//@ ensures [C04] recorded: len(l.errors) == old(len(l.errors)) + 1
+
+//@ func (*lexer).errorf
+//@ props C04
+//@ modifies l.errors, l.tokEnd
+//@ ensures [C04] recorded: len(l.errors) == old(len(l.errors)) + 1
+
+//@ func (*lexer).hasError
+//@ props C04
+//@ ensures r0 == (len(l.errors) > 0)
+
+//@ func (*lexer).peek
+//@ props C03 C04
+//@ modifies l.srcPos, l.lastCharLen, l.column, l.line, l.lastLineLen, l.errors, l.tokEnd, l.ch
+//@ ensures [C03] cached: old(l.ch) != -1 ==> r0 == old(l.ch) && l.srcPos == old(l.srcPos)
+//@ ensures [C04] result: r0 == l.ch || old(l.ch) != -1
+
+// ---------------------------------------------------------------------------
+// leaf character classes and digit values
+
+//@ func lower
+//@ props C03
+//@ mode bv
+//@ ensures [C03] ascii-letter: ch >= 'A' && ch <= 'Z' ==> r0 == ch + 32
+//@ ensures [C03] lower-fixed: ch >= 'a' && ch <= 'z' ==> r0 == ch
+//@ ensures [C03] local-sets-bit: r0 == ch|32
+
+//@ func isDecimal
+//@ props C03
+//@ ensures [C03] digits: r0 == (ch >= '0' && ch <= '9')
+
+//@ func isHex
+//@ props C03
+//@ mode bv
+//@ ensures [C03] hex-digits: r0 == ((ch >= '0' && ch <= '9') || (ch >= 'a' && ch <= 'f') || (ch >= 'A' && ch <= 'F'))
+
+//@ func hexChar
+//@ props C03
+//@ ensures [C03] decimal: c >= '0' && c <= '9' ==> r0 == c - '0'
+//@ ensures [C03] lower: c >= 'a' && c <= 'f' ==> r0 == c - 'a' + 10
+//@ ensures [C03] upper: c >= 'A' && c <= 'F' ==> r0 == c - 'A' + 10
+//@ ensures [C03 C04] invalid: !((c >= '0' && c <= '9') || (c >= 'a' && c <= 'f') || (c >= 'A' && c <= 'F')) ==> r0 == -1
+//@ ensures [C03] range: r0 >= -1 && r0 <= 15
+
+//@ func merge
+//@ props C03
+//@ mode bv
+//@ ensures [C03] shift-or: r1 >= 0 && r1 < 134217728 && r2 >= 0 && r2 <= 15 ==> r0 == r1*16 + r2
+
+//@ func litName
+//@ props C04
+
+//@ func (*lexer).scanOperator
+//@ props C03 C04
+//@ modifies l.srcPos, l.lastCharLen, l.column, l.line, l.lastLineLen, l.errors, l.tokEnd
+//@ ensures [C03] eq: ch == '=' && firstret[rune](l.next, 0) == '=' ==> r0 == EQUAL_P && ncalls(l.next) == 2 && r1 == callret[rune](l.next, 0)
+//@ ensures [C03] ge: ch == '>' && firstret[rune](l.next, 0) == '=' ==> r0 == GREATEREQUAL_P && ncalls(l.next) == 2 && r1 == callret[rune](l.next, 0)
+//@ ensures [C03] gt: ch == '>' && firstret[rune](l.next, 0) != '=' ==> r0 == GREATER_P && ncalls(l.next) == 1 && r1 == firstret[rune](l.next, 0)
+//@ ensures [C03] le: ch == '<' && firstret[rune](l.next, 0) == '=' ==> r0 == LESSEQUAL_P && ncalls(l.next) == 2 && r1 == callret[rune](l.next, 0)
+//@ ensures [C03] ne-angle: ch == '<' && firstret[rune](l.next, 0) == '>' ==> r0 == NOTEQUAL_P && ncalls(l.next) == 2 && r1 == callret[rune](l.next, 0)
+//@ ensures [C03] lt: ch == '<' && firstret[rune](l.next, 0) != '=' && firstret[rune](l.next, 0) != '>' ==> r0 == LESS_P && ncalls(l.next) == 1 && r1 == firstret[rune](l.next, 0)
+//@ ensures [C03] ne-bang: ch == '!' && firstret[rune](l.next, 0) == '=' ==> r0 == NOTEQUAL_P && ncalls(l.next) == 2 && r1 == callret[rune](l.next, 0)
+//@ ensures [C03] not: ch == '!' && firstret[rune](l.next, 0) != '=' ==> r0 == NOT_P && ncalls(l.next) == 1 && r1 == firstret[rune](l.next, 0)
+//@ ensures [C03] and: ch == '&' && firstret[rune](l.next, 0) == '&' ==> r0 == AND_P && ncalls(l.next) == 2 && r1 == callret[rune](l.next, 0)
+//@ ensures [C03] or: ch == '|' && firstret[rune](l.next, 0) == '|' ==> r0 == OR_P && ncalls(l.next) == 2 && r1 == callret[rune](l.next, 0)
+//@ ensures [C03] any: ch == '*' && firstret[rune](l.next, 0) == '*' ==> r0 == ANY_P && ncalls(l.next) == 2 && r1 == callret[rune](l.next, 0)
+//@ ensures [C03] single: !(ch == '=' && firstret[rune](l.next, 0) == '=') && ch != '>' && ch != '<' && ch != '!' && !(ch == '&' && firstret[rune](l.next, 0) == '&') && !(ch == '|' && firstret[rune](l.next, 0) == '|') && !(ch == '*' && firstret[rune](l.next, 0) == '*') ==> r0 == ch && ncalls(l.next) == 1 && r1 == firstret[rune](l.next, 0)
+
+//@ func identToken
+//@ props C03
+//@ ensures [C03] null: ident == "null" ==> r0 == NULL_P
+//@ ensures [C03] true: ident == "true" ==> r0 == TRUE_P
+//@ ensures [C03] false: ident == "false" ==> r0 == FALSE_P
+//@ ensures [C03] keywords-lower: (ident == "is" ==> r0 == IS_P) && (ident == "to" ==> r0 == TO_P) && (ident == "lax" ==> r0 == LAX_P) && (ident == "strict" ==> r0 == STRICT_P) && (ident == "last" ==> r0 == LAST_P) && (ident == "exists" ==> r0 == EXISTS_P) && (ident == "like_regex" ==> r0 == LIKE_REGEX_P) && (ident == "starts" ==> r0 == STARTS_P) && (ident == "with" ==> r0 == WITH_P) && (ident == "unknown" ==> r0 == UNKNOWN_P) && (ident == "flag" ==> r0 == FLAG_P)
+//@ ensures [C03] methods-lower: (ident == "abs" ==> r0 == ABS_P) && (ident == "size" ==> r0 == SIZE_P) && (ident == "type" ==> r0 == TYPE_P) && (ident == "floor" ==> r0 == FLOOR_P) && (ident == "ceiling" ==> r0 == CEILING_P) && (ident == "double" ==> r0 == DOUBLE_P) && (ident == "bigint" ==> r0 == BIGINT_P) && (ident == "boolean" ==> r0 == BOOLEAN_P) && (ident == "integer" ==> r0 == INTEGER_P) && (ident == "number" ==> r0 == NUMBER_P) && (ident == "decimal" ==> r0 == DECIMAL_P) && (ident == "string" ==> r0 == STRINGFUNC_P) && (ident == "keyvalue" ==> r0 == KEYVALUE_P) && (ident == "datetime" ==> r0 == DATETIME_P) && (ident == "date" ==> r0 == DATE_P) && (ident == "time" ==> r0 == TIME_P) && (ident == "time_tz" ==> r0 == TIME_TZ_P) && (ident == "timestamp" ==> r0 == TIMESTAMP_P) && (ident == "timestamp_tz" ==> r0 == TIMESTAMP_TZ_P)
+//@ ensures [C03] case-insensitive: uninterp[string]("ext_strings_ToLower_r0", ident) == "strict" && ident != "strict" ==> r0 == STRICT_P
+
+//@ func (*lexer).digits
+//@ props C03 C04
+//@ mode bv
+//@ requires invalid != nil || base == 10
+//@ modifies l.srcPos, l.lastCharLen, l.column, l.line, l.lastLineLen, l.errors, l.tokEnd, *invalid
+//@ loop 1 decreases (l.srcEnd-l.srcPos)*2 + ite(ch >= 0, 1, 0)
+//@ loop 1 invariant [C04] errors: len(l.errors) >= old(len(l.errors)) && (ch >= 0 ==> len(l.errors) == old(len(l.errors))) && digSep >= 0 && digSep <= 3
+//@ loop 2 invariant [C04] errors: len(l.errors) >= old(len(l.errors)) && (ch >= 0 ==> len(l.errors) == old(len(l.errors))) && digSep >= 0 && digSep <= 3
+//@ loop 2 decreases (l.srcEnd-l.srcPos)*2 + ite(ch >= 0, 1, 0)
+//@ ensures [C03] stops-at-non-digit: base <= 10 ==> !(r0 >= '0' && r0 <= '9') && r0 != '_'
+//@ ensures [C03] flags: r1 >= 0 && r1 <= 3
+//@ ensures [C04] no-new-errors-unless-stop: r0 >= 0 ==> len(l.errors) == old(len(l.errors))
+
+//@ func invalidSep
+//@ props C03 C04
+//@ loop 1 invariant [C04] index: i >= 0
+//@ loop 1 decreases len(x) - i
+//@ ensures [C03] range: r0 >= -1 && r0 < len(x)
+
+//@ func (*lexer).scanUnicode
+//@ props C03 C04
+//@ modifies l.srcPos, l.lastCharLen, l.column, l.line, l.lastLineLen, l.errors, l.tokEnd, l.strBuf
+//@ ensures [C04] stop-means-error-or-eof: r0 < 0 ==> r0 == -1
+//@ ensures [C04] errors-only-grow: len(l.errors) >= old(len(l.errors))
+
+//@ func (*lexer).decodeUnicode
+//@ props C03 C04
+//@ modifies l.srcPos, l.lastCharLen, l.column, l.line, l.lastLineLen, l.errors, l.tokEnd
+//@ loop 1 invariant [C03] code-point-bound: rr >= 0 && i >= 0 && i <= 6 && (i == 0 ==> rr == 0) && (i == 1 ==> rr < 16) && (i == 2 ==> rr < 256) && (i == 3 ==> rr < 4096) && (i == 4 ==> rr < 65536) && (i == 5 ==> rr < 1048576) && rr < 16777216
+//@ loop 1 invariant [C04] errors-grow: len(l.errors) >= old(len(l.errors))
+//@ loop 1 decreases 6 - i
+//@ loop 2 invariant [C03] four-digits: rr >= 0 && rangeindex2 >= 0 && rangeindex2 <= 2 && (rangeindex2 == 0 ==> rr < 16) && (rangeindex2 == 1 ==> rr < 256) && (rangeindex2 == 2 ==> rr < 4096) && len(l.errors) >= old(len(l.errors))
+//@ ensures [C03 C04] never-nul: r0 != 0
+//@ ensures [C04] stop-is-error: r0 < 0 ==> r0 == -1 && len(l.errors) > old(len(l.errors))
+//@ ensures [C03] range: r0 <= 16777215
+//@ ensures [C04] errors-only-grow: len(l.errors) >= old(len(l.errors))
